@@ -3,6 +3,7 @@
 import json
 ids=[json.loads(l)['id'] for l in open('/verif/properties.jsonl')]
 claimed = {
+ "C12": ("1-8 raw clients over tcp / udp / tls against the real Start()/Stop() path under the seeded baton scheduler with preemptions (sim layer) and under the race detector (race layer); stalling consumer, abrupt closes, Stop during traffic; per-connection order / exactly-once model, connection count, Stop liveness in simulated time, goroutine + socket census", "6 C12"),
  "C13": ("2-4 tasks on one real AggregationProcess under the seeded baton scheduler with preemptions inside library methods (sim layer) and as real goroutines under the race detector (race layer); invoke/return history checked with porcupine against the sequential model; worker-pool member; map/heap bijection after the run", "6 C13"),
  "C10": ("real collector on a simulator-owned clock (clock/timer seam): timer firing and callback execution are separate plan operations placed anywhere relative to template / refresh / replace / bad-template / data traffic; TTL model + timer census after every operation; second member with the library's real clock inside the bubble", "6 C10"),
  "C05": ("real AggregationProcess driven in fake time against a sequential reference model (aggmodel) after every operation: per-node delta sums, totals, throughput, latest-reporter fields, isolation, reset", "6 C05-C07"),
